@@ -26,6 +26,7 @@ closed explicitly).  What is read off the source rather than proven is only that
 -/
 import Sds.Proofs.Writer
 import Sds.Generated.SerConsts
+import Sds.Proofs.GenEqWriter
 
 namespace Sds.C12
 open Sds Outcome RawWriter
@@ -246,5 +247,31 @@ example : ∃ w, IntWriter.writeAll 13 3 [1#64, 2#64, 0xFFFFFFFFFFFFFFFF#64] = o
 /-- an open writer satisfying the invariant exists (hypotheses of the step theorems) -/
 example : (withBufLen [] 0).isOpen = true ∧ Inv (withBufLen [] 0) ∧ (withBufLen [] 0).budget = none :=
   ⟨rfl, withBufLen_Inv _ _ _, rfl⟩
+
+/-! **The writer methods as translated from the source on this run** (`Generated/FnsWriter.lean`): `RawVectorWriter::{push_bit,
+push_int, close_with_header, close}` and `IntVectorWriter::{push, close}` — the order "push into the buffer, add to `len`,
+test `buf.len() >= buf_len`, flush and `unwrap`", the early return of `push_int` for width 0, "if open: flush(Final)?,
+write_header?, file = None" of `close_with_header`, the two header words of the integer writer.  The two methods that
+touch the file (`flush`, `write_header`) are named by their model functions (`Model/WriterGlue.lean`).  For every writer
+state satisfying the writer invariant `Good` (proved to hold initially and after every push) with fewer than 2^64 bits
+pushed in total, and for every push history from a fresh writer with any buffer size and any sink budget
+(`GenEq.wr_history_eq`: a failing sink gives the same `unwrap` panic at the same push on both sides), the code as it is NOW
+is the model function the theorems above are about.  `RawVectorWriter::close()` passes an EMPTY header to
+`close_with_header`; the model's `close` passes the writer's own user header, so the two agree for raw writers created
+without a parent header (all the library and the property use; `GenEq.wr_close_eq` states the general fact,
+observation O12 in DESIGN.md). -/
+theorem writer_methods_as_translated_from_source (m : Mode) (w : RawWriter) (iw : IntWriter) (b : Bool) (x : Word)
+    (width : Nat) (header : Array Word) (hw : width ≤ 64) (hg : RawWriter.Good w) (hB : w.bufLen < U64) :
+    (w.len + 1 < U64 → Generated.gen_RawVectorWriter_push_bit m w b = w.pushBit b) ∧
+    (w.len + width < U64 → Generated.gen_RawVectorWriter_push_int m w x width = w.pushInt x width) ∧
+    Generated.gen_RawVectorWriter_close_with_header m w header = w.closeWith header.toList ∧
+    Generated.gen_RawVectorWriter_close m w = w.closeWith [] ∧
+    (w.userHeader = [] → Generated.gen_RawVectorWriter_close m w = w.close) ∧
+    (IntWriter.Good iw → iw.writer.bufLen < U64 → iw.writer.len + iw.width < U64 → iw.len + 1 < U64 →
+      Generated.gen_IntVectorWriter_push m iw x = iw.push x) ∧
+    Generated.gen_IntVectorWriter_close m iw = iw.close :=
+  ⟨fun hl => GenEq.wr_push_bit_eq_good m w b hg hB hl, fun hl => GenEq.wr_push_int_eq_good m w x width hw hg hB hl,
+   GenEq.wr_close_with_header_eq m w header, GenEq.wr_close_eq m w, fun hu => GenEq.wr_close_eq_close m w hu,
+   fun hgi hb hwl hl => GenEq.iwr_push_eq_good m iw x hgi hb hwl hl, GenEq.iwr_close_eq m iw⟩
 
 end Sds.C12
